@@ -3,19 +3,16 @@
 // avail_spec.rs (op_resolve_ff, avail_pick, avail_post), lsp_backend.rs.
 
 // ---- callHierarchy/outgoingCalls ---------------------------------------------------------------------------
-/// what Backend::find_parameter_ranges computes: where the parameter `name` is written on (1-based) line `line` of
-/// the CACHED text of `file`: the FIRST occurrence of the name AS A SUBSTRING of that line (byte columns); None: no
-/// cached text / no such line / not found
-pub open spec fn param_ranges(cache: Map<PV, String>, file: PV, line: usize, name: Seq<char>) -> Option<Seq<Range>> {
-    if !cache.contains_key(file) { None } else {
-        let ls = text_lines(Some(cache[file]@));
-        let idx = if line == 0 { 0int } else { line - 1 };
-        if idx >= ls.len() { None } else {
-            match str_find(ls[idx], name) {
-                None => None,
-                Some(s) => Some(seq![mk_range(lsp_line(line), s as u32, lsp_line(line), (s + utf8_len(name)) as u32)]),
-            }
-        }
+/// recorded usage u is "the parameter `name` on (1-based) line `line`": same line, same name
+pub open spec fn param_use(line: usize, name: Seq<char>) -> spec_fn(UseV) -> bool { |u: UseV| u.line == line && u.name == name }
+pub open spec fn use_range_fn() -> spec_fn(UseV) -> Range { |u: UseV| use_range(u) }
+/// what Backend::find_parameter_ranges computes (since the repair of F-15c: from the INDEX, no text search): the
+/// name spans (use_range: (line-1, start_char)-(line-1, end_char)) of the recorded usages of the file that sit on
+/// `line` and carry `name`, in list order; None: the file has no usages entry, or no such usage
+pub open spec fn param_ranges(uses: Map<PV, Seq<UseV>>, file: PV, line: usize, name: Seq<char>) -> Option<Seq<Range>> {
+    if !uses.contains_key(file) { None } else {
+        let rs = uses[file].filter(param_use(line, name)).map_values(use_range_fn());
+        if rs.len() == 0 { None } else { Some(rs) }
     }
 }
 pub ghost struct OutCallV { pub to: ItemV, pub from_ranges: Seq<Range> }
@@ -25,10 +22,11 @@ pub open spec fn out_calls_v(s: Seq<CallHierarchyOutgoingCall>) -> Seq<OutCallV>
 /// resolve_fixture_for_file (op_resolve_ff) — NOT find_fixture_definition / op_resolve
 pub open spec fn dep_target(v: NavV, p: PV, dep: Seq<char>) -> Option<DefV> { op_resolve_ff(bucket(v.defs, dep), p, canon_pv(p)) }
 /// the outgoing call for dependency `dep` of definition d (in file p) resolved to dd: the item is built like the
-/// prepared item (def_item); from_ranges = where the parameter is written, else (fallback) dd's OWN name span
+/// prepared item (def_item); from_ranges = the recorded spans of the parameter on d's definition line, else (fallback:
+/// no usage of that name recorded on that line) dd's OWN name span
 pub open spec fn out_call_for(v: NavV, p: PV, d: DefV, dep: Seq<char>, dd: DefV, u: Uri) -> OutCallV {
     OutCallV { to: def_item(u, dd),
-               from_ranges: match param_ranges(v.cache, p, d.line, dep) { Some(rs) => rs, None => seq![def_name_range(dd)] } }
+               from_ranges: match param_ranges(v.uses, p, d.line, dep) { Some(rs) => rs, None => seq![def_name_range(dd)] } }
 }
 pub open spec fn out_calls(v: NavV, p: PV, d: DefV, deps: Seq<Seq<char>>) -> Seq<OutCallV>
     decreases deps.len()
